@@ -156,6 +156,48 @@ theorem double_only_puts_add_and_they_broadcast :
       = ["Put1", "Put2", "PutForce1", "PutForce2"] ∧
     broadcasters RequestDoubleQueue.facts = ["Put1", "Put2", "PutForce1", "PutForce2"] := by decide
 
+/-! ### every queue operation runs under the queue's lock — one obligation per method, so that a dropped
+    lock names the method (GetTimeout is the polling loop: it only calls GetNoWait, see
+    `gettimeout_polls_getnowait`) -/
+
+/-- `m` takes the queue's lock as its first statement, releases it by `defer`, touches no field and calls
+    nothing on the inner lists outside of it -/
+def methodLocked (T : TypeFacts) (m : String) : Bool :=
+  atomicMethod T m && (match T.find m with | some M => M.fieldCallsFree.isEmpty | none => false)
+
+theorem RequestQueue_Clear_locked : methodLocked RequestQueue.facts "Clear" = true := by decide
+theorem RequestQueue_Get_locked : methodLocked RequestQueue.facts "Get" = true := by decide
+theorem RequestQueue_GetCapacity_locked : methodLocked RequestQueue.facts "GetCapacity" = true := by decide
+theorem RequestQueue_GetNoWait_locked : methodLocked RequestQueue.facts "GetNoWait" = true := by decide
+theorem RequestQueue_Put_locked : methodLocked RequestQueue.facts "Put" = true := by decide
+theorem RequestQueue_PutForce_locked : methodLocked RequestQueue.facts "PutForce" = true := by decide
+theorem RequestQueue_SetCapacity_locked : methodLocked RequestQueue.facts "SetCapacity" = true := by decide
+theorem RequestQueue_Size_locked : methodLocked RequestQueue.facts "Size" = true := by decide
+
+theorem RequestDoubleQueue_Clear_locked : methodLocked RequestDoubleQueue.facts "Clear" = true := by decide
+theorem RequestDoubleQueue_Get_locked : methodLocked RequestDoubleQueue.facts "Get" = true := by decide
+theorem RequestDoubleQueue_GetCapacity1_locked : methodLocked RequestDoubleQueue.facts "GetCapacity1" = true := by decide
+theorem RequestDoubleQueue_GetCapacity2_locked : methodLocked RequestDoubleQueue.facts "GetCapacity2" = true := by decide
+theorem RequestDoubleQueue_GetNoWait_locked : methodLocked RequestDoubleQueue.facts "GetNoWait" = true := by decide
+theorem RequestDoubleQueue_Put1_locked : methodLocked RequestDoubleQueue.facts "Put1" = true := by decide
+theorem RequestDoubleQueue_Put2_locked : methodLocked RequestDoubleQueue.facts "Put2" = true := by decide
+theorem RequestDoubleQueue_PutForce1_locked : methodLocked RequestDoubleQueue.facts "PutForce1" = true := by decide
+theorem RequestDoubleQueue_PutForce2_locked : methodLocked RequestDoubleQueue.facts "PutForce2" = true := by decide
+theorem RequestDoubleQueue_SetCapacity_locked : methodLocked RequestDoubleQueue.facts "SetCapacity" = true := by decide
+theorem RequestDoubleQueue_Size_locked : methodLocked RequestDoubleQueue.facts "Size" = true := by decide
+theorem RequestDoubleQueue_Size1_locked : methodLocked RequestDoubleQueue.facts "Size1" = true := by decide
+theorem RequestDoubleQueue_Size2_locked : methodLocked RequestDoubleQueue.facts "Size2" = true := by decide
+theorem RequestDoubleQueue_ToString1_locked : methodLocked RequestDoubleQueue.facts "ToString1" = true := by decide
+theorem RequestDoubleQueue_ToString2_locked : methodLocked RequestDoubleQueue.facts "ToString2" = true := by decide
+
+/-- no exported queue method is left out of the list above (a new method needs its obligation) -/
+theorem queue_methods_covered :
+    (RequestQueue.facts.methods.filter (·.exported)).map (·.name)
+      = ["Clear", "Get", "GetCapacity", "GetNoWait", "GetTimeout", "Put", "PutForce", "SetCapacity", "Size"] ∧
+    (RequestDoubleQueue.facts.methods.filter (·.exported)).map (·.name)
+      = ["Clear", "Get", "GetCapacity1", "GetCapacity2", "GetNoWait", "GetTimeout", "Put1", "Put2", "PutForce1",
+         "PutForce2", "SetCapacity", "Size", "Size1", "Size2", "ToString1", "ToString2"] := by decide
+
 /-! ### known finding `RequestDoubleQueue:callbacks-unsettable`, characterised on the source facts -/
 
 /-- the methods of `T` that assign one of the fields `flds` -/
